@@ -187,6 +187,9 @@ func (a *Agent) VerifSnapshot() (s VerifSnap) { //nolint:cyclop
 			if sel.nominatedPair != nil {
 				s.NomPair = sel.nominatedPair.id
 			}
+			if sel.lastAckedNomination != nil {
+				s.LastNom = *sel.lastAckedNomination
+			}
 			s.SelStart = sel.startTime
 		case *controlledSelector:
 			if sel.lastNomination != nil {
